@@ -27,6 +27,8 @@ FLOORS = {"quick": {"agenda_pops": 20000, "mixed_class_instants": 500, "same_cla
 # floors for the situations added with the later rounds of seeded changes (evidence that they were really exercised)
 FLOORS["quick"].update({'timeouts_by_class_constructor': 4000, 'chained_triggers_fired': 80, 'interrupts_issued_from_plain_callbacks': 300})
 FLOORS["thorough"].update({'timeouts_by_class_constructor': 20000, 'chained_triggers_fired': 400, 'interrupts_issued_from_plain_callbacks': 1500})
+FLOORS["quick"].update({'rational_clock_programs': 300})
+FLOORS["thorough"].update({'rational_clock_programs': 1500})
 
 PROFILE = {"weights": {"timeout": 6, "zero": 2, "wait": 2, "succeed": 2, "fail": 0.5, "spawn": 2, "join": 2,
                        "interrupt": 3, "cb": 0.5, "cond": 0, "cbint": 0.3, "chain": 0.2},
